@@ -48,6 +48,9 @@ class ConnectComp(TimeComponent):
                     if i.get("rule_units"):
                         in_rules[i["name"]] = [FromOutput(i["info"][1], ["grid"]), FromValue("time", self.time),
                                                FromValue("units", i["rule_units"])]
+                    elif i.get("rule_form") == "fields":
+                        in_rules[i["name"]] = [FromOutput(i["info"][1], ["time", "units"]), FromValue("grid", NoGrid()),
+                                               FromValue("time", self.time)]
                     else:
                         in_rules[i["name"]] = [FromOutput(i["info"][1]), FromValue("time", self.time)]
         for o in s["outputs"]:
@@ -64,10 +67,23 @@ class ConnectComp(TimeComponent):
                     if o.get("rule_units"):
                         out_rules[o["name"]] = [FromInput(o["info"][1], ["grid"]), FromValue("time", self.time),
                                                 FromValue("units", o["rule_units"])]
+                    elif o.get("rule_form") == "fields":
+                        out_rules[o["name"]] = [FromInput(o["info"][1], ["time", "units"]), FromValue("grid", NoGrid()),
+                                                FromValue("time", self.time)]
                     else:
                         out_rules[o["name"]] = [FromInput(o["info"][1]), FromValue("time", self.time)]
-        self.create_connector(pull_data=[i["name"] for i in s["inputs"] if i["pull"]],
-                              in_info_rules=in_rules, out_info_rules=out_rules, cache=s.get("cache", True))
+        if s.get("rules_api") == "add":
+            # the same rules handed over one by one after the connector exists
+            self.create_connector(pull_data=[i["name"] for i in s["inputs"] if i["pull"]], cache=s.get("cache", True))
+            for name, rules in in_rules.items():
+                for r in rules:
+                    self.connector.add_in_info_rule(name, r)
+            for name, rules in out_rules.items():
+                for r in rules:
+                    self.connector.add_out_info_rule(name, r)
+        else:
+            self.create_connector(pull_data=[i["name"] for i in s["inputs"] if i["pull"]],
+                                  in_info_rules=in_rules, out_info_rules=out_rules, cache=s.get("cache", True))
 
     def _provide(self, o):
         if o["data"] == "computed" and not self.connector.all_data_pulled:
